@@ -417,6 +417,8 @@ class Facts:
         with open(path) as f:
             j = json.load(f)
         self.path = path
+        from .inliner import inline_helpers
+        self.inlined_helpers = inline_helpers(j)
         self.j = j
         self.crate = j["crate"]
         self.features = j["features"]
